@@ -21,7 +21,7 @@ pub struct Case {
 }
 
 fn strategy(conflicts: bool) -> impl Strategy<Value = Case> {
-	let cfg = GenCfg { ns_min: 2, ns_max: 2, p_missing: 15, style: TargetStyle::Arbitrary, max_classes: 5, backslash_docs: true, ..GenCfg::default() };
+	let cfg = GenCfg { ns_min: 2, ns_max: 2, p_missing: 15, style: TargetStyle::Arbitrary, max_classes: 5, backslash_docs: true, lone_surrogates: true, ..GenCfg::default() };
 	(mapset(cfg), draws(), draws(), any::<u8>(), order_seed()).prop_map(move |(base, s1, s2, mode, order)| {
 		let mut a = edit(&base, 1, &s1);
 		let mut b = edit(&base, 1, &s2);
